@@ -4,6 +4,7 @@ import (
 	"bytes"
 	"context"
 	"encoding/hex"
+	"encoding/json"
 	"fmt"
 	"math/big"
 
@@ -323,14 +324,85 @@ func c11ErrCheck(c c11Err) (fs []rep.Finding) {
 	return
 }
 
+// c11Refresh: a FeeQuote object that is in use is refreshed from a JSON document. After a document
+// that is accepted the quote holds exactly the document's entries (a type it omits is gone); after
+// one that is rejected it holds what it held before. Fees computed from it afterwards follow.
+type c11Refresh struct {
+	Prior int `json:"prior_state"` // 0 fresh default quote, 1 both types set through AddQuote, 2 both set, then read
+	Doc   int `json:"document"`
+}
+
+var c11RefreshDocs = []struct {
+	doc      string
+	ok       bool
+	std, dat *[2]int // satoshis, bytes; nil = absent after an accepted refresh
+}{
+	{`{"standard":{"miningFee":{"satoshis":500,"bytes":1000},"relayFee":{"satoshis":500,"bytes":1000}},"data":{"miningFee":{"satoshis":250,"bytes":1000},"relayFee":{"satoshis":250,"bytes":1000}}}`, true, &[2]int{500, 1000}, &[2]int{250, 1000}},
+	{`{"standard":{"miningFee":{"satoshis":500,"bytes":1000},"relayFee":{"satoshis":500,"bytes":1000}}}`, true, &[2]int{500, 1000}, nil},
+	{`{"data":{"miningFee":{"satoshis":7,"bytes":3},"relayFee":{"satoshis":7,"bytes":3}}}`, true, nil, &[2]int{7, 3}},
+	{`{}`, true, nil, nil},
+	{`{"standard":{"miningFee":{"satoshis":500,"bytes":1000},"relayFee":{"satoshis":500,"bytes":1000}},"priority":{"miningFee":{"satoshis":1,"bytes":1},"relayFee":{"satoshis":1,"bytes":1}}}`, false, nil, nil},
+	{`{"data":{"miningFee":{"satoshis":9,"bytes":10},"relayFee":{"satoshis":9,"bytes":10}},"standard":{"miningFee":{"satoshis":"many","bytes":1000}}}`, false, nil, nil},
+	{`{"standard":{"miningFee":{"satoshis":500,"bytes":1000}},"data":`, false, nil, nil},
+	{`[]`, false, nil, nil},
+}
+
+func c11RefreshCheck(c c11Refresh) (fs []rep.Finding) {
+	fq := bt.NewFeeQuote()
+	before := map[bt.FeeType][2]int{bt.FeeTypeStandard: {5, 100}, bt.FeeTypeData: {5, 100}}
+	if c.Prior >= 1 {
+		fq.AddQuote(bt.FeeTypeStandard, &bt.Fee{FeeType: bt.FeeTypeStandard, MiningFee: bt.FeeUnit{Satoshis: 977, Bytes: 3}, RelayFee: bt.FeeUnit{Satoshis: 977, Bytes: 3}})
+		fq.AddQuote(bt.FeeTypeData, &bt.Fee{FeeType: bt.FeeTypeData, MiningFee: bt.FeeUnit{Satoshis: 13, Bytes: 7}, RelayFee: bt.FeeUnit{Satoshis: 13, Bytes: 7}})
+		before = map[bt.FeeType][2]int{bt.FeeTypeStandard: {977, 3}, bt.FeeTypeData: {13, 7}}
+	}
+	if c.Prior == 2 {
+		_, _ = fq.Fee(bt.FeeTypeStandard)
+		_, _ = fq.Fee(bt.FeeTypeData)
+		_, _ = json.Marshal(fq)
+	}
+	d := c11RefreshDocs[c.Doc]
+	err := json.Unmarshal([]byte(d.doc), fq)
+	if (err == nil) != d.ok {
+		return append(fs, rep.F("quote-refresh|verdict", fmt.Sprintf("document %d: err=%v, expected accepted=%v", c.Doc, err, d.ok)))
+	}
+	want := map[bt.FeeType]*[2]int{bt.FeeTypeStandard: d.std, bt.FeeTypeData: d.dat}
+	if !d.ok {
+		bs, bd := before[bt.FeeTypeStandard], before[bt.FeeTypeData]
+		want = map[bt.FeeType]*[2]int{bt.FeeTypeStandard: &bs, bt.FeeTypeData: &bd}
+	}
+	for _, ft := range []bt.FeeType{bt.FeeTypeStandard, bt.FeeTypeData} {
+		f, ferr := fq.Fee(ft)
+		w := want[ft]
+		switch {
+		case w == nil && ferr == nil:
+			fs = append(fs, rep.F("quote-refresh|stale-entry|accepted="+fmt.Sprint(d.ok), fmt.Sprintf("after the refresh the quote still answers for %s (%d/%d) although the accepted document does not carry it", ft, f.MiningFee.Satoshis, f.MiningFee.Bytes)))
+		case w != nil && (ferr != nil || f.MiningFee.Satoshis != w[0] || f.MiningFee.Bytes != w[1]):
+			fs = append(fs, rep.F("quote-refresh|wrong-rate|accepted="+fmt.Sprint(d.ok), fmt.Sprintf("after the refresh (accepted=%v) the %s fee is %+v (err=%v), want %d/%d", d.ok, ft, f, ferr, w[0], w[1])))
+		}
+	}
+	// and what a transaction is charged follows the same rates
+	if want[bt.FeeTypeStandard] != nil && want[bt.FeeTypeData] != nil {
+		t := &txref.Tx{Version: 1, Ins: []txref.In{p2pkhIn(0, 100000)}, Outs: []txref.Out{{Sats: 1000, Script: refP2PKH(fill(20, 1))}, {Sats: 0, Script: c11OutScript(5)}}}
+		t.Ins[0].Script = fill(107, 0x30)
+		_, std, data := refSizes(t)
+		q := quote{want[bt.FeeTypeStandard][0], want[bt.FeeTypeStandard][1], want[bt.FeeTypeData][0], want[bt.FeeTypeData][1]}
+		ef, err := toLib(t).EstimateFeesPaid(fq)
+		if err != nil || new(big.Int).SetUint64(ef.TotalFeePaid).Cmp(refFee(std, data, q)) != 0 {
+			fs = append(fs, rep.F("quote-refresh|fee-follows-other-rates", fmt.Sprintf("fee computed after the refresh: %+v (err=%v), the quote's rates give %s", ef, err, refFee(std, data, q))))
+		}
+	}
+	return
+}
+
 func init() {
 	p := register(&Prop{ID: "C11", Level: "exploration",
-		Rule: "exhaustive: (accounting) every multiset-ordered choice of <=2 (quick) / <=3 (thorough) outputs from 13 script kinds (P2PKH, OP_RETURN alone/empty/1/75/76-byte, OP_FALSE OP_RETURN with 65536-byte payload and bare, `00`, `00 51 6a`, empty, OP_RETURN not first) x inputs 0..3 x signing state (none/all/first/short scripts) x 11 fee quotes (independent std/data rates incl. >1 sat/byte, non-dyadic rates, zero) x in-out placed at {fee-1, fee, fee+1, out>in, equal, ample} relative to the big-integer reference fee of the actual and of the estimated size: TotalBytes=len(bytes)=Std+Data, fee = floor+floor, predicates exact; (signed) 8 keys x nIn 1..3 x nOut 0..2 x every subset of inputs pre-signed x plain/inscription spent script, paying to the hash of the compressed key, of the uncompressed form of the same key, or of another key: EstimateSize >= size after FillAllInputs; (counts) 252/253/254 outputs with 0..2 inputs and 252/253/254 inputs with 0..2 outputs x quotes x fee relations; (errors) every position x 12 missing/unsupported spent scripts (incl. five P2PKH look-alikes: hash through PUSHDATA1, opcodes as pushed bytes, 21-byte hash, leading NOP) x signed/unsigned: every estimator returns an error; (wrap) outputs totalling 2^64-4 and more against inputs of 1000, of 5000 (more than the outputs' sum modulo 2^64) and of 2^63+2^63; (quote forms) the same quotes assembled through 8 other call sequences (refreshed from JSON into a quote object that already held default / other rates, Fee objects labelled with the other type, unlabelled, through FeeQuotes.UpdateMinerFees, update of existing entries, relabelled copy, a fresh default quote after another default quote's Fee objects were changed in place); (builders) outputs built by AddOpReturnOutput / AddOpReturnPartsOutput / CreateOpReturnOutput for item lengths {1,2,75,76,255,256,65535,65536} (single and pairs) and AddHashPuzzleOutput: script equals the reference layout and is counted as data / standard bytes accordingly. distinct_nontrivial = distinct (tx bytes, quote, relation) triples",
+		Rule: "exhaustive: (accounting) every multiset-ordered choice of <=2 (quick) / <=3 (thorough) outputs from 13 script kinds (P2PKH, OP_RETURN alone/empty/1/75/76-byte, OP_FALSE OP_RETURN with 65536-byte payload and bare, `00`, `00 51 6a`, empty, OP_RETURN not first) x inputs 0..3 x signing state (none/all/first/short scripts) x 11 fee quotes (independent std/data rates incl. >1 sat/byte, non-dyadic rates, zero) x in-out placed at {fee-1, fee, fee+1, out>in, equal, ample} relative to the big-integer reference fee of the actual and of the estimated size: TotalBytes=len(bytes)=Std+Data, fee = floor+floor, predicates exact; (signed) 8 keys x nIn 1..3 x nOut 0..2 x every subset of inputs pre-signed x plain/inscription spent script, paying to the hash of the compressed key, of the uncompressed form of the same key, or of another key: EstimateSize >= size after FillAllInputs; (counts) 252/253/254 outputs with 0..2 inputs and 252/253/254 inputs with 0..2 outputs x quotes x fee relations; (errors) every position x 12 missing/unsupported spent scripts (incl. five P2PKH look-alikes: hash through PUSHDATA1, opcodes as pushed bytes, 21-byte hash, leading NOP) x signed/unsigned: every estimator returns an error; (wrap) outputs totalling 2^64-4 and more against inputs of 1000, of 5000 (more than the outputs' sum modulo 2^64) and of 2^63+2^63; (quote forms) the same quotes assembled through 8 other call sequences (refreshed from JSON into a quote object that already held default / other rates, Fee objects labelled with the other type, unlabelled, through FeeQuotes.UpdateMinerFees, update of existing entries, relabelled copy, a fresh default quote after another default quote's Fee objects were changed in place); (quote refresh) 3 prior states of a quote object x 8 JSON documents (both types, one type only, empty, unknown type after a valid entry, bad unit in a later entry, truncated, not an object): after an accepted document the quote holds exactly its entries, after a rejected one what it held before, and fees follow; (builders) outputs built by AddOpReturnOutput / AddOpReturnPartsOutput / CreateOpReturnOutput for item lengths {1,2,75,76,255,256,65535,65536} (single and pairs) and AddHashPuzzleOutput: script equals the reference layout and is counted as data / standard bytes accordingly. distinct_nontrivial = distinct (tx bytes, quote, relation) triples",
 	})
 	sA := NewSpace(p, "accounting", c11Check)
 	sS := NewSpace(p, "signed", c11SignCheck)
 	sE := NewSpace(p, "errors", c11ErrCheck)
 	sB := NewSpace(p, "builders", c11BuilderCheck)
+	sR := NewSpace(p, "quote-refresh", c11RefreshCheck)
 	p.Run = func(r *rep.Run, thorough bool) {
 		var outsets [][]int
 		outsets = append(outsets, []int{})
@@ -396,7 +468,7 @@ func init() {
 			for nin := 1; nin <= 2; nin++ {
 				for _, q := range c11Quotes {
 					for rel := 0; rel < 3; rel++ {
-						for form := 1; form <= 8; form++ {
+						for form := 1; form <= 9; form++ {
 							bc = append(bc, c11Case{Outs: os, NIn: nin, Signed: 2, Q: q, Rel: rel, QForm: form}, c11Case{Outs: os, NIn: nin, Signed: 0, Q: q, Rel: rel, OnEst: true, QForm: form})
 						}
 					}
@@ -494,6 +566,13 @@ func init() {
 			return fs
 		}}).Slice(r, bcs)
 		r.Note("builder_cases", len(bcs))
+		var rcs []c11Refresh
+		for prior := 0; prior < 3; prior++ {
+			for d := range c11RefreshDocs {
+				rcs = append(rcs, c11Refresh{prior, d})
+			}
+		}
+		sR.Slice(r, rcs)
 	}
 }
 
